@@ -11,7 +11,7 @@ func created(op *Op) int {
 	switch op.K {
 	case "new", "copy":
 		return 1
-	case "newBatch":
+	case "newBatch", "bulk":
 		return op.N
 	}
 	return 0
@@ -39,7 +39,7 @@ func renumber(ops []Op, from, n int) {
 			return
 		}
 		switch op.K {
-		case "new", "newBatch", "filterNew", "obsNew", "filterReg", "obsReg", "query", "shrink", "stats", "res", "qOpen", "qNext", "qClose":
+		case "new", "newBatch", "bulk", "filterNew", "obsNew", "filterReg", "obsReg", "query", "shrink", "stats", "res", "qOpen", "qNext", "qClose":
 		default:
 			fix(&op.E)
 		}
